@@ -46,8 +46,8 @@ func isNameKindTest(info *types.Info, e ast.Expr) bool {
 	ast.Inspect(e, func(x ast.Node) bool {
 		switch y := x.(type) {
 		case *ast.CallExpr:
-			if f := core.CalleeObj(info, y); f != nil && (f.Name() == "peek") && len(y.Args) == 2 {
-				if c, ok := core.ObjOf(info, y.Args[1]).(*types.Const); ok && c.Name() == "NAME" {
+			if f := core.CalleeObj(info, y); f != nil && (core.N(f) == "peek") && len(y.Args) == 2 {
+				if c, ok := core.ObjOf(info, y.Args[1]).(*types.Const); ok && core.N(c) == "NAME" {
 					found = true
 				}
 			}
@@ -55,7 +55,7 @@ func isNameKindTest(info *types.Info, e ast.Expr) bool {
 			if y.Op == token.EQL {
 				for _, pair := range [][2]ast.Expr{{y.X, y.Y}, {y.Y, y.X}} {
 					if se, ok := pair[0].(*ast.SelectorExpr); ok && se.Sel.Name == "Kind" {
-						if c, ok := core.ObjOf(info, pair[1]).(*types.Const); ok && c.Name() == "NAME" {
+						if c, ok := core.ObjOf(info, pair[1]).(*types.Const); ok && core.N(c) == "NAME" {
 							found = true
 						}
 					}
@@ -73,7 +73,7 @@ func anyKindTest(info *types.Info, e ast.Expr) bool {
 	ast.Inspect(e, func(x ast.Node) bool {
 		switch y := x.(type) {
 		case *ast.CallExpr:
-			if f := core.CalleeObj(info, y); f != nil && (f.Name() == "peek" || f.Name() == "peekDescription") {
+			if f := core.CalleeObj(info, y); f != nil && (core.N(f) == "peek" || core.N(f) == "peekDescription") {
 				found = true
 			}
 		case *ast.SelectorExpr:
@@ -176,7 +176,7 @@ func c03Token(c *core.Ctx, r *core.Reporter) {
 					return true
 				}
 				isAdvance := f == advanceFn
-				if !isAdvance && !advanceAtEntry[f.Name()] {
+				if !isAdvance && !advanceAtEntry[core.N(f)] {
 					return true
 				}
 				if advanceAtEntry[fd.Name.Name] && isAdvance {
@@ -190,9 +190,9 @@ func c03Token(c *core.Ctx, r *core.Reporter) {
 				per[fd.Name.Name+"/adv"]++
 				key := fmt.Sprintf("%s/consume#%d", fd.Name.Name, per[fd.Name.Name+"/adv"])
 				if kindKnownAt(info, x, stack, fd) {
-					r.OK(key, x.Pos(), "%s called with the current token's kind established", f.Name())
+					r.OK(key, x.Pos(), "%s called with the current token's kind established", core.N(f))
 				} else {
-					r.Bad(key, x.Pos(), "%s calls %s (which consumes the current token unconditionally) without having tested the token's kind on this path", fd.Name.Name, f.Name())
+					r.Bad(key, x.Pos(), "%s calls %s (which consumes the current token unconditionally) without having tested the token's kind on this path", fd.Name.Name, core.N(f))
 				}
 			}
 			return true
@@ -215,7 +215,7 @@ func keywordKindEstablished(info *types.Info, cmp *ast.BinaryExpr, stack []ast.N
 		switch s := stack[i].(type) {
 		case *ast.CaseClause:
 			for _, e := range s.List {
-				if c, ok := core.ObjOf(info, e).(*types.Const); ok && c.Name() == "NAME" {
+				if c, ok := core.ObjOf(info, e).(*types.Const); ok && core.N(c) == "NAME" {
 					return true, "inside case lexer.NAME"
 				}
 			}
@@ -239,8 +239,8 @@ func keywordKindEstablished(info *types.Info, cmp *ast.BinaryExpr, stack []ast.N
 				case *ast.AssignStmt:
 					if len(y.Rhs) == 1 {
 						if call, ok := y.Rhs[0].(*ast.CallExpr); ok {
-							if f := core.CalleeObj(info, call); f != nil && f.Name() == "expect" && len(call.Args) == 2 {
-								if c, ok := core.ObjOf(info, call.Args[1]).(*types.Const); ok && c.Name() == "NAME" {
+							if f := core.CalleeObj(info, call); f != nil && core.N(f) == "expect" && len(call.Args) == 2 {
+								if c, ok := core.ObjOf(info, call.Args[1]).(*types.Const); ok && core.N(c) == "NAME" {
 									established = true
 								}
 							}
@@ -249,7 +249,7 @@ func keywordKindEstablished(info *types.Info, cmp *ast.BinaryExpr, stack []ast.N
 				case *ast.IfStmt:
 					if be, ok := y.Cond.(*ast.BinaryExpr); ok && be.Op == token.NEQ {
 						if se, ok := be.X.(*ast.SelectorExpr); ok && se.Sel.Name == "Kind" {
-							if c, ok := core.ObjOf(info, be.Y).(*types.Const); ok && c.Name() == "NAME" {
+							if c, ok := core.ObjOf(info, be.Y).(*types.Const); ok && core.N(c) == "NAME" {
 								established = true
 							}
 						}
@@ -354,10 +354,10 @@ func c03Lit(c *core.Ctx, r *core.Reporter) {
 				return true
 			}
 			n := core.NamedOf(info.TypeOf(cl))
-			if n == nil || n.Obj().Pkg() == nil || n.Obj().Pkg().Name() != "ast" || n.Obj().Name() == "Location" {
+			if n == nil || n.Obj().Pkg() == nil || n.Obj().Pkg().Name() != "ast" || core.N(n.Obj()) == "Location" {
 				return true
 			}
-			tn := n.Obj().Name()
+			tn := core.N(n.Obj())
 			per[fd.Name.Name+"/"+tn]++
 			key := fmt.Sprintf("%s/%s", fd.Name.Name, tn)
 			if per[key] > 1 {
@@ -375,17 +375,17 @@ func c03Lit(c *core.Ctx, r *core.Reporter) {
 			}
 			var miss []string
 			for _, f := range core.Fields(n) {
-				if f.Name() == "Kind" || optionalNodeFields[tn+"."+f.Name()] {
+				if core.N(f) == "Kind" || optionalNodeFields[tn+"."+core.N(f)] {
 					continue
 				}
-				if _, ok := set[f.Name()]; !ok {
-					miss = append(miss, f.Name())
+				if _, ok := set[core.N(f)]; !ok {
+					miss = append(miss, core.N(f))
 				}
 			}
 			// Loc = loc(parser, <start read from the current token at the production's start>)
 			locOK := false
 			if le, ok := set["Loc"].(*ast.CallExpr); ok {
-				if f := core.CalleeObj(info, le); f != nil && f.Name() == "loc" && len(le.Args) == 2 {
+				if f := core.CalleeObj(info, le); f != nil && core.N(f) == "loc" && len(le.Args) == 2 {
 					locOK = startFromEntryToken(info, fd, le.Args[1])
 				}
 			}
@@ -449,16 +449,16 @@ func c03Lit(c *core.Ctx, r *core.Reporter) {
 			}
 			n := core.NamedOf(al.Type())
 			f := core.FieldOf(fa)
-			if n == nil || f == nil || n.Obj().Pkg() == nil || n.Obj().Pkg().Name() != "ast" || n.Obj().Name() == "Location" {
+			if n == nil || f == nil || n.Obj().Pkg() == nil || n.Obj().Pkg().Name() != "ast" || core.N(n.Obj()) == "Location" {
 				return
 			}
-			if !isNodeish(c, f.Type()) || f.Name() == "Description" || nilableChildren[n.Obj().Name()+"."+f.Name()] {
+			if !isNodeish(c, f.Type()) || core.N(f) == "Description" || nilableChildren[core.N(n.Obj())+"."+core.N(f)] {
 				return
 			}
 			if _, isSlice := f.Type().(*types.Slice); isSlice {
 				return
 			}
-			k := fmt.Sprintf("%s/%s.%s/non-nil", fname, n.Obj().Name(), f.Name())
+			k := fmt.Sprintf("%s/%s.%s/non-nil", fname, core.N(n.Obj()), core.N(f))
 			perNil[k]++
 			if perNil[k] > 1 {
 				k = fmt.Sprintf("%s#%d", k, perNil[k])
@@ -470,7 +470,7 @@ func c03Lit(c *core.Ctx, r *core.Reporter) {
 				}
 			}
 			r.Check(!hasNil, k, st.Pos(), "required child can never be nil here",
-				fmt.Sprintf("%s stores a possibly-nil value into required child %s.%s: on some token sequence the node is built without that child (and the sequence is accepted)", fname, n.Obj().Name(), f.Name()))
+				fmt.Sprintf("%s stores a possibly-nil value into required child %s.%s: on some token sequence the node is built without that child (and the sequence is accepted)", fname, core.N(n.Obj()), core.N(f)))
 		})
 	}
 }
@@ -500,7 +500,7 @@ func startFromEntryToken(info *types.Info, fd *ast.FuncDecl, e ast.Expr) bool {
 		// `token, err := expect(parser, KIND)` as the very first statement: the consumed token is the production's first token
 		if ok && len(as.Lhs) == 2 && core.ObjOf(info, as.Lhs[0]) == o && len(as.Rhs) == 1 {
 			if call, isCall := as.Rhs[0].(*ast.CallExpr); isCall {
-				if f := core.CalleeObj(info, call); f != nil && (f.Name() == "expect" || f.Name() == "expectKeyWord") {
+				if f := core.CalleeObj(info, call); f != nil && (core.N(f) == "expect" || core.N(f) == "expectKeyWord") {
 					return true
 				}
 			}
@@ -616,13 +616,13 @@ func c03Tokens(c *core.Ctx, r *core.Reporter) {
 					}
 				}
 			case *ast.CallExpr:
-				if fo := core.CalleeObj(lp.TypesInfo, y); fo != nil && fo.Name() == "makeToken" && len(y.Args) == 4 {
+				if fo := core.CalleeObj(lp.TypesInfo, y); fo != nil && core.N(fo) == "makeToken" && len(y.Args) == 4 {
 					if o := core.ObjOf(lp.TypesInfo, y.Args[0]); o != nil {
 						if v, ok := o.(*types.Var); ok {
 							// kind := INT; if isFloat { kind = FLOAT }
 							_ = v
 							for _, kc := range kindsC {
-								if kc.Name() == "INT" || kc.Name() == "FLOAT" {
+								if core.N(kc) == "INT" || core.N(kc) == "FLOAT" {
 									produced[kc] = true
 								}
 							}
@@ -658,12 +658,12 @@ func c03Tokens(c *core.Ctx, r *core.Reporter) {
 	}
 	for _, k := range kindsC {
 		ok := desc[k] && produced[k] && consumed[k]
-		r.Check(ok, "kind/"+k.Name(), k.Pos(), "described, produced by the lexer and consumed by the parser",
-			fmt.Sprintf("token kind %s: described=%v produced=%v consumed=%v — a token the lexer never makes or the parser never accepts changes the accepted language", k.Name(), desc[k], produced[k], consumed[k]))
+		r.Check(ok, "kind/"+core.N(k), k.Pos(), "described, produced by the lexer and consumed by the parser",
+			fmt.Sprintf("token kind %s: described=%v produced=%v consumed=%v — a token the lexer never makes or the parser never accepts changes the accepted language", core.N(k), desc[k], produced[k], consumed[k]))
 	}
 	for _, kw := range keywords {
-		r.Check(keyOf[kw], "keyword/"+kw.Name(), kw.Pos(), "keyword dispatches to a definition parser",
-			"keyword constant "+kw.Name()+" is not a key of tokenDefinitionFn: definitions starting with it are rejected")
+		r.Check(keyOf[kw], "keyword/"+core.N(kw), kw.Pos(), "keyword dispatches to a definition parser",
+			"keyword constant "+core.N(kw)+" is not a key of tokenDefinitionFn: definitions starting with it are rejected")
 	}
 }
 
@@ -684,12 +684,12 @@ func c03Src(c *core.Ctx, r *core.Reporter) {
 					switch x := in.(type) {
 					case *ssa.Store:
 						if ia, ok := x.Addr.(*ssa.IndexAddr); ok && fromBody(ia.X) {
-							bad, pos = f.Name()+" stores into Source.Body", in.Pos()
+							bad, pos = core.N(f)+" stores into Source.Body", in.Pos()
 						}
 					case *ssa.Call:
-						if b, ok := x.Call.Value.(*ssa.Builtin); ok && (b.Name() == "append" || b.Name() == "copy") && len(x.Call.Args) > 0 {
+						if b, ok := x.Call.Value.(*ssa.Builtin); ok && (core.N(b) == "append" || core.N(b) == "copy") && len(x.Call.Args) > 0 {
 							if fromBody(x.Call.Args[0]) {
-								bad, pos = f.Name()+" appends onto / copies into a (sub-)slice of Source.Body", in.Pos()
+								bad, pos = core.N(f)+" appends onto / copies into a (sub-)slice of Source.Body", in.Pos()
 							}
 						}
 					}
